@@ -75,6 +75,12 @@ CHECKS = {
         "backslash, newline, multi-byte, here-doc and redirection characters) plus thousands of fragment concatenations is highlighted in-process at every cursor position under catch_unwind, and TLC evaluates the predicate on every record.",
    note="Trusted: TLC, the harness' recording of (len, boundaries, spans). The predicate is simple; the value is the enumerated input set and the uniform treatment (one statement of the property). A record with a gap must be rejected (self-test).",
    ref="DESIGN.md section 6 C19"),
+ "C01": dict(level="exploration", thorough=True, tech="TLA+ Lexer.tla (lexical mode automaton of the reader) generates every reachable text of <= N atoms (= cut inputs) with its minimal completion; boundary literals x numeric templates; nesting families to depth 64; executed in-process (6 parser entry points, catch_unwind) and by the real shell",
+   text="Model-directed exploration: TLC enumerates the texts the reader's mode automaton can reach (every prefix is an input cut at that point) and their completions; together with boundary numerals substituted into ~60 numeric positions of the language "
+        "and nesting families to depth 64 they are run through the in-process parser entry points and executed with -c and over stdin. Oracle: an exit status - no panic, abort, signal, hang - and a diagnostic with non-zero status for incomplete texts (where bash agrees).",
+   note="Exploration level: the quantifier of C01 (all character sequences, byte-level mutation) is a fuzzing quantifier; TLC contributes the generation, the oracle is trivial. Inputs longer than the bounds and arbitrary byte mutations are not covered. "
+        "A hang is declared only when bash finishes the same text.",
+   ref="DESIGN.md section 6 C01, section 11"),
 }
 PENDING_REASON = "check not built yet in this round (planned, see DESIGN.md section 12); no claim is made"
 
@@ -89,7 +95,7 @@ def main():
         e = {"property_id": pid, "quick_cmd": "./check %s quick" % pid, "evidence_file": "evidence/%s.json" % pid,
              "replay_cmd_template": "./check %s replay --replay {path}" % pid,
              "engine": "tla-mbt",
-             "level_claimed": {"category": c["level"], "text": c["text"], "design_ref": c["ref"]},
+             "level_claimed": {"category": c["level"] if c["level"] != MC else MC, "text": c["text"], "design_ref": c["ref"]},
              "level_note": c["note"], "technique": c["tech"]}
         if c.get("thorough"):
             e["thorough_cmd"] = "./check %s thorough" % pid
